@@ -79,6 +79,39 @@ def read_cases(ctx, extra):
     return progs, ties, feats
 
 
+def _esc(s):
+    """inverse of vlib.unesc (the line escaping of harness/src/sexp.rs::esc_line)"""
+    return s.replace("\\", "\\\\").replace("\n", "\\n").replace("\t", "\\t").replace("\r", "\\r")
+
+
+def _fields_coverage(runnable):
+    """streams fld: / fldwrap: / fldnest: of harness/src/c09/fields.rs"""
+    shapes, perms, plans, streams = {}, {}, {}, {}
+    partial = 0
+    for k in runnable:
+        f = k.split(":")
+        if f[0] not in ("fld", "fldwrap", "fldnest"):
+            continue
+        streams[f[0]] = streams.get(f[0], 0) + 1
+        if f[0] == "fld":
+            shape, n, perm, tag = f[2], f[3], f[4], f[5]
+        elif f[0] == "fldwrap":
+            shape, n, perm, tag = f[2], f[4], f[5], "wrap-" + f[3]
+        else:
+            shape, n, perm, tag = f[3], f[4], f[5], "compound-initialisers"
+        shapes[shape] = shapes.get(shape, 0) + 1
+        perms[perm] = perms.get(perm, 0) + 1
+        tag = tag.split("@")[0]
+        plans[tag] = plans.get(tag, 0) + 1
+        fixed = [i for i, c in enumerate(perm) if "abcd"[i] == c]
+        if fixed and len(fixed) < len(perm):
+            partial += 1
+    return {"programs": sum(streams.values()), "by_stream": streams, "by_shape": shapes,
+            "distinct_written_orders(of 2+6+24)": len(perms), "programs_per_written_order(min)": min(perms.values()) if perms else 0,
+            "programs_with_a_PARTIALLY_permuted_order(some fields in their declared slot, some displaced)": partial,
+            "by_effect_plan": plans}
+
+
 def _replay_is_dce(path):
     try:
         return json.load(open(path)).get("signature", {}).get("source") == "dce"
@@ -100,6 +133,12 @@ def run(ctx):
             open(f, "w").write(src)
             extra = ["--file", f]
     progs, ties, feats = read_cases(ctx, extra)
+    if ctx.replay and extra and "replay" in progs:
+        # an `expected-trace` violation is replayed against the trace recorded with it (the generator is not re-run)
+        c0 = (rp.get("cases") or [{}])[0]
+        ex = c0.get("expected")
+        if ex and len(ex.get("stdout", "")) < 600:
+            progs["replay"]["trace"] = {c0.get("schedule", "eager"): (ex["status"], _esc(ex["stdout"]))}
 
     # ------------------------------------------------------------ L1 tie (model vs anf.rs)
     tie_res = ctx.model("c09", [f"{k}\t{v}" for k, v in ties.items() if v]) if ties else {}
@@ -279,6 +318,7 @@ def run(ctx):
         "forms": forms, "generator": feats,
         "impl_oracle_failures": len(ctx.violations), "model_diffs": n_tie - n_tie_eq - n_tie_eqt,
     }
+    cov["named_operand_order(struct literals and struct patterns: every permutation of 2..4 fields x place x effect plan; expected trace = written order, values by field name)"] = _fields_coverage(runnable)
     # ---- dead-code elimination (go/dce.rs): model = implementation, behaviour of its real output
     if not ctx.replay or _replay_is_dce(ctx.replay):
         dce_cov, found = dce.evaluate(ctx)
